@@ -312,6 +312,34 @@ void h_script_vnacal_new(void)
 	    CHECK(rc == 0, "add: repeating succeeds");
 	}
     }
+#ifdef S_M_ERROR
+    {	/* noise model on its own three-point grid (spline allocations), set twice */
+	static double nfg[3] = { 0.5e9, 1.0e9, 2.0e9 };
+	static double nf1[3] = { 1.0e-3, 2.0e-3, 3.0e-3 }, nf2[3] = { 4.0e-3, 5.0e-3, 6.0e-3 };
+	int calls_before = ghost_err_calls;
+	int rc = vnacal_new_set_m_error(vnp, nfg, 3, nf1, NULL);
+
+	if (rc == -1) {
+	    FAILED_CLEANLY("set_m_error");
+	    CHECK(vnp->vn_m_error_vector == NULL, "set_m_error: a failed first setting leaves the model disabled");
+	    rc = vnacal_new_set_m_error(vnp, nfg, 3, nf1, NULL);
+	    CHECK(rc == 0, "set_m_error: repeating succeeds");
+	}
+	CHECK(vnp->vn_m_error_vector != NULL && vnp->vn_m_error_vector[0].vnme_sigma_nf == 2.0e-3,
+		"set_m_error: the value at a grid point is the given one");
+	calls_before = ghost_err_calls;
+	rc = vnacal_new_set_m_error(vnp, nfg, 3, nf2, NULL);
+	if (rc == -1) {
+	    FAILED_CLEANLY("set_m_error (second)");
+	    CHECK(vnp->vn_m_error_vector != NULL && vnp->vn_m_error_vector[0].vnme_sigma_nf == 2.0e-3,
+		    "set_m_error: a failed change leaves the previous setting in place");
+	    rc = vnacal_new_set_m_error(vnp, nfg, 3, nf2, NULL);
+	    CHECK(rc == 0, "set_m_error (second): repeating succeeds");
+	}
+	CHECK(vnp->vn_m_error_vector != NULL && vnp->vn_m_error_vector[0].vnme_sigma_nf == 5.0e-3,
+		"set_m_error: the new setting is in effect");
+    }
+#endif
 #ifdef S_THROUGH
     {	/* a standard with off-diagonal terms, an unknown parameter and a second use of it (hash hit) */
 	static double complex tv[4][1];
